@@ -56,6 +56,7 @@ def _c02_runs(tier):
     rs.append(Run(C(sse2=0, **MIN), "harness/p_c02.c", ["--mode=struct"], group="host-struct"))
     rs.append(Run(C(**MIN), "harness/p_c02.c", ["--mode=big"], group="min-big"))
     rs.append(_omp_run("C02", 0x410, tier))
+    rs.append(Run(C(**MIN), "harness/p_c02.c", ["--mode=rec"], group="min-rec"))
     return rs
 
 PROPS["C02"] = dict(
